@@ -296,6 +296,11 @@ class Interp:
             if t is False:
                 return self.block(s.orelse, env, rets)
             e1, e2 = env.copy(), env.copy()
+            # cheap path sensitivity for the `x is None` / `x is not None` idiom: in the branch where x is None bind it to None
+            tt = s.test
+            if isinstance(tt, ast.Compare) and len(tt.ops) == 1 and isinstance(tt.left, ast.Name) and isinstance(tt.comparators[0], ast.Constant) \
+                    and tt.comparators[0].value is None and isinstance(tt.ops[0], (ast.Is, ast.IsNot)) and getattr(self, "tolerant", False):
+                (e1 if isinstance(tt.ops[0], ast.Is) else e2).set(tt.left.id, Const(None))
             f1 = self.block(s.body, e1, rets)
             f2 = self.block(s.orelse, e2, rets)
             self.merge(env, [(e1, f1), (e2, f2)], s)
